@@ -223,6 +223,15 @@ def mutate(obj, kind: str, rng) -> bool:
             obj.srcport.line = "eq 4242"
         elif kind == "option.line":
             obj.option.line = "log"
+        elif kind == "bindings.repeat":
+            # the binding lists are live lists: an interface recorded twice (and one more) through them
+            if cls != "Acl":
+                return False
+            obj.input.append(obj.input[0] if obj.input else "interface Ethernet1/9")
+            obj.input.append("interface Ethernet1/9")
+            obj.input.sort()
+            obj.output.append("interface Vlan7")
+            obj.output.append("interface Vlan7")
         elif kind == "name":
             obj.name = "RENAMED"
         elif kind == "indent":
@@ -508,6 +517,8 @@ def gen_case(rng):
     case["mutations"] = [rng.choice(menu) for _ in range(rng.randint(1, 4))] if menu else []
     if cls in ("Acl", "AceGroup", "AddrGroup") and rng.random() < 0.3:
         case["pre"] = ["resequence"]
+    if cls == "Acl" and rng.random() < 0.25:
+        case["pre"] = case.get("pre", []) + ["bindings.repeat"]
     case["transforms"] = [rng.choice(TRANSFORMS) for _ in range(rng.randint(1, 4))]
     return case
 
